@@ -16,7 +16,7 @@ HARNESS_I = ["vcr/issuer/zz_verif_c11i_test.go"]
 HARNESSES = [(PKG, HARNESS, "c11"), (PKG_V, HARNESS_V, "c11v"), (PKG_A, HARNESS_A, "c11a"), (PKG_I, HARNESS_I, "c11i")]
 
 REQUIRED = ["entries_injective", "einv_fresh", "bit_set_get", "bit_total", "served_list_signed_and_fresh", "list_signed_in_same_transaction",
-            "sign_failure_is_atomic", "fact_update_upserts_all_columns", "fact_revoke_credential_statements", "set_monotone", "served_bit_never_cleared", "revoke_idempotent", "revoked_forever_network", "revocation_before_credential",
+            "sign_failure_is_atomic", "store_read_fault_never_accepts", "each_entry_judged_by_its_own_list", "fact_verify_soft_fail_scope", "fact_update_upserts_all_columns", "fact_revoke_credential_statements", "set_monotone", "served_bit_never_cleared", "revoke_idempotent", "revoked_forever_network", "revocation_before_credential",
             "revocation_event_stored_or_retried", "redelivered_revocation_effective", "fact_ambassador_transient_errors",
             "first_revocation_entry_is_first_relevant", "issuer_revoke_status_list_effective", "issuer_network_revocation_accepted",
             "fact_issuer_ambassador_store_sites", "issuer_only", "stored_revocations_accepted", "network_revocation_is_by_issuer", "forged_revocations_rejected",
@@ -169,6 +169,26 @@ def oracle(ctx, ops, impl, max_index, min_left_min):
                 stats["verify-revoked"] += 1
             if "dl=[]" not in line:
                 stats["verify-with-download"] += 1
+            if len(rel) >= 2 and all(x["idx"].isdigit() and int(x["idx"]) <= max_index and x["list"]["node"] >= 0 for x in rel):
+                # several entries: each is judged by the list IT names. Walk them in order as far as the outcome is determined
+                # by what this run knows: lists of the verifying node itself (always current) or lists downloaded right now.
+                stats["verify-multi-entry"] += 1
+                dl = line.split("dl=")[1]
+                expected = "ok"
+                for x in rel:
+                    lx = x["list"]
+                    nm = f"n{lx['node']}/{lx.get('issuer','')}/{lx.get('page',0)}"
+                    if (lx["node"], nm) not in issued_lists or not (lx["node"] == node or nm in dl):
+                        expected = None
+                        break
+                    if int(x["idx"]) in revoked.get((lx["node"], nm), set()):
+                        expected = "revoked"
+                        break
+                if expected is not None and len({(x["list"]["node"], x["list"].get("issuer"), x["list"].get("page")) for x in rel}) > 1:
+                    stats["verify-multi-entry-different-lists-decided"] += 1
+                    if v != expected:
+                        report("C11:entry-not-judged-by-the-list-it-names",
+                               f"node {node}: entries {[(x['list'].get('issuer'), x['list'].get('page'), x['idx']) for x in rel]} expected {expected}, answer {v}", i)
             if len(rel) == 1 and rel[0]["idx"].isdigit():
                 s = rel[0]
                 lst = s["list"]
@@ -282,6 +302,12 @@ def voracle(ops, impl):
             if op.get("kind") == "nutsorg" and pre(cid) != iss:
                 if line != "vverify err:validation":
                     report("C11:nuts-validator-accepts-foreign-id-prefix", f"{line} for {ops[i][:300]}", i)
+                continue
+            if op.get("storefault"):
+                stats["verify-with-store-read-fault"] += 1
+                if line == "vverify ok":
+                    report("C11:credential-accepted-while-the-revocation-store-cannot-be-read",
+                           f"{cid} ({'revocation present' if cid in accepted else 'no revocation'}): {line}", i)
                 continue
             if cid in accepted:
                 stats["verify-with-revocation-present"] += 1
